@@ -86,6 +86,7 @@ type ObjectSpec struct {
 	Locals   bool   // object is the set of captured locals of a function (ccall)
 	Mode     string // "sequential": no interference at lock acquisition (properties over call histories)
 	Volatile []string
+	Bounded  []string // counters assumed not to overflow (|x| < 2^62 at lock acquisition)
 }
 
 // Lemma is a pure formula proved once.
@@ -366,6 +367,11 @@ func ParseSpecFile(path, pkgPath string, ps *PkgSpec) error {
 			curO.Locals = true
 		case "mode":
 			curO.Mode = rest
+		case "bounded":
+			if curO == nil {
+				return fail(l.n, "bounded outside object block")
+			}
+			curO.Bounded = append(curO.Bounded, strings.Fields(strings.ReplaceAll(rest, ",", " "))...)
 		case "guarded", "atomic", "immutable", "volatile":
 			if curO == nil {
 				return fail(l.n, "%s outside object block", kw)
